@@ -26,23 +26,21 @@ var c17ResetReasons = []string{"StreamConnectionTermination", "StreamConnectionF
 //	retry_on=false                       only for StreamConnectionFailed
 //	retry_on=true, no status readable    only for ConnectionFailed, PerTryTimeout, ConnectionTermination
 //	retry_on=true, status readable       possible (decided by the status code / the configured list)
-func c17RetryDecisionTable(c *Ctx, pp string) {
-	fn := c.M(pp, "retryState", "doRetryCheck")
+// retryTable evaluates doRetryCheck for every (reason, retry_on, status readable) combination: can it answer true?
+func retryTable(c *Ctx, pp string) (tab map[string]bool, fn *ssa.Function, ok bool) {
+	fn = c.M(pp, "retryState", "doRetryCheck")
 	if fn == nil || len(fn.Params) < 4 {
-		c.Unresolved("C17.R12", "retryState.doRetryCheck")
-		return
+		return nil, nil, false
 	}
 	tp := c.TypesPkg("pkg/types")
 	if tp == nil {
-		c.Unresolved("C17.R12", "package pkg/types")
-		return
+		return nil, fn, false
 	}
 	reasons := map[string]string{}
 	for _, name := range c17ResetReasons {
-		k, ok := tp.Scope().Lookup(name).(*types.Const)
-		if !ok || k.Val().Kind() != constant.String {
-			c.Unresolved("C17.R12", "reset reason constant types."+name)
-			return
+		k, isC := tp.Scope().Lookup(name).(*types.Const)
+		if !isC || k.Val().Kind() != constant.String {
+			return nil, fn, false
 		}
 		reasons[name] = constant.StringVal(k.Val())
 	}
@@ -70,14 +68,10 @@ func c17RetryDecisionTable(c *Ctx, pp string) {
 		},
 	}
 	m := &aiMachine{spec: spec, res: &aiResult{}, visited: map[string]bool{}, c: c}
-	var wrong []string
-	n := 0
-	names := append([]string{}, c17ResetReasons...)
-	sort.Strings(names)
-	for _, name := range names {
+	tab = map[string]bool{}
+	for _, name := range c17ResetReasons {
 		for _, retryOn := range []bool{false, true} {
 			for _, readable := range []bool{false, true} {
-				n++
 				args := make([]aiVal, len(fn.Params))
 				args[0] = aiVal{k: aiNonNil, tag: "recv"}
 				args[len(args)-1] = aiVal{k: aiStr, s: reasons[name]}
@@ -88,9 +82,83 @@ func c17RetryDecisionTable(c *Ctx, pp string) {
 						canTrue = true
 					}
 				}
+				tab[fmt.Sprintf("%s|%v|%v", name, retryOn, readable)] = canTrue
+			}
+		}
+	}
+	return tab, fn, true
+}
+
+// resetGuardsGlobalTimeout: in downStream.onUpstreamReset the retry decision is taken only when reason != UpstreamGlobalTimeout.
+func resetGuardsGlobalTimeout(c *Ctx, pp string) (guarded bool, fn *ssa.Function) {
+	fn = c.M(pp, "downStream", "onUpstreamReset")
+	if fn == nil {
+		return false, nil
+	}
+	retry := callsIn(fn, false, func(cc *ssa.CallCommon) bool { return methodName(cc) == "retry" })
+	if len(retry) != 1 {
+		return false, fn
+	}
+	for _, gd := range guardsAt(retry[0].Instr.Block()) {
+		bo, ok := gd.Cond.(*ssa.BinOp)
+		if !ok {
+			continue
+		}
+		for _, k := range []ssa.Value{bo.X, bo.Y} {
+			if s, isK := constStringVal(k); isK && s == "UpstreamGlobalTimeout" {
+				if (bo.Op == token.NEQ && gd.True) || (bo.Op == token.EQL && !gd.True) {
+					return true, fn
+				}
+			}
+		}
+	}
+	return false, fn
+}
+
+// globalTimeoutFinal (C17.R3 / C03.R11): a try ended by the global timeout is never retried - the one-shot global timer
+// is spent, a new try would have no deadline at all. Either onUpstreamReset keeps that reason away from the retry
+// decision, or doRetryCheck cannot answer true for it under any (retry_on, status readable) combination.
+func globalTimeoutFinal(c *Ctx, pp, rule string) {
+	guarded, rf := resetGuardsGlobalTimeout(c, pp)
+	if rf == nil {
+		c.Unresolved(rule, "downStream.onUpstreamReset")
+		return
+	}
+	tab, _, ok := retryTable(c, pp)
+	if !ok {
+		c.Unresolved(rule, "retryState.doRetryCheck / the reset reason constants of pkg/types")
+		return
+	}
+	never := true
+	for k, v := range tab {
+		if strings.HasPrefix(k, "UpstreamGlobalTimeout|") && v {
+			never = false
+		}
+	}
+	c.Check(rule, funcKey(rf)+":global-timeout-final", rf.Pos(), guarded || never, "the global timeout never reaches a positive retry decision", "a try ended by the global timeout can be retried (onUpstreamReset no longer keeps UpstreamGlobalTimeout away from the retry decision and doRetryCheck can answer true for it, e.g. through the status a previous try left behind): the response token is re-opened although the one-shot global timer is spent - the request gets no reply at its deadline, or none at all")
+}
+
+func c17RetryDecisionTable(c *Ctx, pp string) {
+	tab, fn, ok := retryTable(c, pp)
+	if !ok {
+		c.Unresolved("C17.R12", "retryState.doRetryCheck / the reset reason constants of pkg/types")
+		return
+	}
+	var wrong []string
+	names := append([]string{}, c17ResetReasons...)
+	sort.Strings(names)
+	n := 0
+	for _, name := range names {
+		for _, retryOn := range []bool{false, true} {
+			for _, readable := range []bool{false, true} {
+				n++
+				canTrue := tab[fmt.Sprintf("%s|%v|%v", name, retryOn, readable)]
 				var want bool
 				switch {
 				case name == "StreamOverflow":
+					want = false
+				case name == "UpstreamGlobalTimeout" && !canTrue:
+					// kept away from the decision by onUpstreamReset today; refusing it here as well is right (globalTimeoutFinal)
 					want = false
 				case !retryOn:
 					want = name == "StreamConnectionFailed"
